@@ -157,16 +157,11 @@ process_value (struct MHD_PostProcessor *pp,
             pp->xbuf_pos);
   xoff = pp->xbuf_pos;
   pp->xbuf_pos = 0;
-  if ( (NULL != last_escape) &&
-       (((size_t) (value_end - last_escape)) < sizeof (pp->xbuf)) )
-  {
-    mhd_assert (value_end >= last_escape);
-    pp->xbuf_pos = (size_t) (value_end - last_escape);
-    memcpy (pp->xbuf,
-            last_escape,
-            (size_t) (value_end - last_escape));
-    value_end = last_escape;
-  }
+  /* A '%' at the very end of the range must not be put aside here: the
+     loop below finds an incomplete escape sequence at the end of the
+     processing buffer itself and would overwrite (lose) this one if
+     the remaining data ends with another incomplete sequence ("%f%"). */
+  (void) last_escape;
   while ( (value_start != value_end) ||
           (pp->must_ikvi) ||
           (xoff > 0) )
